@@ -180,6 +180,8 @@ pub trait Flavour: Sized + 'static {
     fn g_scc(g: &Self::Graph) -> Option<Vec<Vec<Self::Node>>>;
     fn g_to_dot(g: &Self::Graph) -> String;
     fn g_to_dot_attr(g: &Self::Graph, spec: DotSpec) -> Option<String>;
+    type AltGraph;
+    fn alt_dot_attr(g: &Self::AltGraph) -> Option<String>;
     /// `to_dot_with_attr` whose node and edge callbacks are the harness's own (they return no
     /// attributes); None where the flavour has no such export
     fn g_to_dot_cb(g: &Self::Graph, ncb: &dyn Fn(&Self::Node), ecb: &dyn Fn(&Self::Node, &Self::Node, &EVal)) -> Option<String>;
@@ -188,6 +190,9 @@ pub trait Flavour: Sized + 'static {
     fn g_de(bytes: &[u8], wire: Wire) -> Result<Self::Graph, String>;
     fn g_de_reader(r: &mut dyn Read, wire: Wire) -> Result<Self::Graph, String>;
     fn alt_round_trip(n: usize, edges: &[(usize, usize)], wire: Wire, key_style: u8) -> Result<(String, String), String>;
+    /// `to_dot()` (and `to_dot_with_attr` without attributes, where the flavour has it) of a graph
+    /// whose keys are `PortKey`s: distinct keys that may print alike
+    fn alt_dot(n: usize, edges: &[(usize, usize)]) -> (String, Option<String>);
     /// deserialise a document whose keys are strings and whose node and edge values are `()`:
     /// per member its key and the keys its edges lead to
     fn alt_de(bytes: &[u8], wire: Wire) -> Result<Vec<(String, Vec<String>)>, String>;
@@ -212,6 +217,22 @@ pub fn alt_key(style: u8, k: usize) -> String {
     }
 }
 
+/// A key type whose `Display` is not injective: `PortKey { unit, lane }` prints as `u<unit>`.
+/// Two members with such keys are different members; what the key prints is the caller's business.
+#[derive(Clone, Debug, PartialEq, Eq, Hash, PartialOrd, Ord)]
+pub struct PortKey {
+    pub unit: usize,
+    pub lane: usize,
+}
+impl std::fmt::Display for PortKey {
+    fn fmt(&self, f: &mut std::fmt::Formatter<'_>) -> std::fmt::Result {
+        write!(f, "u{}", self.unit)
+    }
+}
+pub fn port_key(k: usize) -> PortKey {
+    PortKey { unit: k / 2, lane: k % 2 }
+}
+
 pub trait SyncFlavour: Flavour
 where
     Self::Node: Send + Sync,
@@ -226,11 +247,16 @@ pub fn dot_g(spec: DotSpec) -> Option<Vec<(String, String)>> {
         None
     }
 }
+/// attribute values a DOT user writes: label escapes (`\n`, `\l` as two characters), paths,
+/// colour codes, blanks, a tab, non-ASCII text - the export has to pass them on as they are
+pub const DOT_VALUES: [&str; 8] = ["plain", "two\\nlines", "left\\l", "C:\\tmp\\x", "#ff00aa", "a b", "tab\there", "\u{e9}t\u{e9}"];
+
 pub fn dot_n(spec: DotSpec, key: usize, prio: u32) -> Option<Vec<(String, String)>> {
     if spec.nmask & (1 << (key % 16)) != 0 {
         Some(vec![
             ("label".to_string(), format!("k{key}")),
             ("prio".to_string(), format!("{prio}")),
+            ("note".to_string(), DOT_VALUES[(key + prio as usize) % DOT_VALUES.len()].to_string()),
         ])
     } else {
         None
@@ -238,7 +264,10 @@ pub fn dot_n(spec: DotSpec, key: usize, prio: u32) -> Option<Vec<(String, String
 }
 pub fn dot_e(spec: DotSpec, u: usize, v: usize, e: u64) -> Option<Vec<(String, String)>> {
     if spec.emask & (1 << (e % 16)) != 0 {
-        Some(vec![("label".to_string(), format!("{u}-{v}-e{e}"))])
+        Some(vec![
+            ("label".to_string(), format!("{u}-{v}-e{e}")),
+            ("note".to_string(), DOT_VALUES[(e as usize) % DOT_VALUES.len()].to_string()),
+        ])
     } else {
         None
     }
@@ -399,6 +428,18 @@ macro_rules! common_graph_items {
                 _ => serde_json::from_reader(r).map_err(|e| e.to_string()),
             }
         }
+        fn alt_dot(n: usize, edges: &[(usize, usize)]) -> (String, Option<String>) {
+            type G = gdsl::$m::Graph<PortKey, u8, u8>;
+            let nodes: Vec<gdsl::$m::Node<PortKey, u8, u8>> = (0..n).map(|k| gdsl::$m::Node::new(port_key(k), 0u8)).collect();
+            for (u, v) in edges {
+                nodes[*u].connect(&nodes[*v], 0u8);
+            }
+            let mut g: G = gdsl::$m::Graph::new();
+            for x in &nodes {
+                g.insert(x.clone());
+            }
+            (g.to_dot(), Self::alt_dot_attr(&g))
+        }
         /// round trip of a graph with `String` keys, `()` node values and `()` edge values (so
         /// parallel edges are indistinguishable): description before and after
         fn alt_de(bytes: &[u8], wire: Wire) -> Result<Vec<(String, Vec<String>)>, String> {
@@ -484,6 +525,9 @@ macro_rules! dot_attr_impl {
                 &|n| dot_n(spec, kout(*n.key()), n.value().prio),
                 &|u, v, e| dot_e(spec, kout(*u.key()), kout(*v.key()), e.0),
             ))
+        }
+        fn alt_dot_attr(g: &Self::AltGraph) -> Option<String> {
+            Some(g.to_dot_with_attr(&|_| None, &|_| None, &|_, _, _| None))
         }
         fn g_to_dot_cb(g: &Self::Graph, ncb: &dyn Fn(&Self::Node), ecb: &dyn Fn(&Self::Node, &Self::Node, &EVal)) -> Option<String> {
             Some(g.to_dot_with_attr(
@@ -671,6 +715,7 @@ macro_rules! directed_flavour {
             const SYNC: bool = $sync;
             type Node = $m::N;
             type Graph = gdsl::$m::Graph<usize, NVal, EVal>;
+            type AltGraph = gdsl::$m::Graph<PortKey, u8, u8>;
 
             common_node_items!($m);
 
@@ -926,6 +971,7 @@ macro_rules! undirected_flavour {
             const SYNC: bool = $sync;
             type Node = $m::N;
             type Graph = gdsl::$m::Graph<usize, NVal, EVal>;
+            type AltGraph = gdsl::$m::Graph<PortKey, u8, u8>;
 
             common_node_items!($m);
 
@@ -1119,6 +1165,9 @@ macro_rules! undirected_dot_attr {
             None
         }
         fn g_to_dot_cb(_g: &Self::Graph, _ncb: &dyn Fn(&Self::Node), _ecb: &dyn Fn(&Self::Node, &Self::Node, &EVal)) -> Option<String> {
+            None
+        }
+        fn alt_dot_attr(_g: &Self::AltGraph) -> Option<String> {
             None
         }
     };
